@@ -235,4 +235,43 @@ theorem soe_roundtrip (fp : Nat) (hfp : fp < 2 ^ 64) (body : List Nat) :
   have : fp % 256 ^ 8 = fp := Nat.mod_eq_of_lt (by simpa using hfp)
   rw [this]
 
+/-- **The source still has the shape the models were written against.**  Every `SH_*` item of
+`tools/items/C17.py` is a regular expression over an exact statement sequence of /repo (block
+framing of `encode_blocked_range`, the nullable branch test of the reader, the body of
+`minimal_twos_complement` and `sign_cast_to`, the dispatch of `read_varint`, the flush loop of
+`decode_hex_to_writer`, the escape table of the JSON tape decoder, the csv writer defaults and the
+csv-core parser configuration, …).  An edit of a guard, of the order of two statements or of an
+operand makes the item LOST, and this obligation false. -/
+theorem source_shapes :
+    SH_BLOCK_EMPTY_lost = false ∧
+    SH_BLOCK_ONE_lost = false ∧
+    SH_LEN_PREFIXED_lost = false ∧
+    SH_WRITE_BOOL_lost = false ∧
+    SH_FIELD_NULL_lost = false ∧
+    SH_BRANCH_BYTE_lost = false ∧
+    SH_UNION_ENC_lost = false ∧
+    SH_MIN_TWOS_lost = false ∧
+    SH_DEC_ENC_lost = false ∧
+    SH_OCF_BLOCK_lost = false ∧
+    SH_NULLABLE_READ_lost = false ∧
+    SH_UNION_TAG_lost = false ∧
+    SH_BLOCKWISE_lost = false ∧
+    SH_BLOCK_CAP_lost = false ∧
+    SH_GET_BYTES_lost = false ∧
+    SH_GET_INT_lost = false ∧
+    SH_READ_VARINT_lost = false ∧
+    SH_SIGN_CAST_lost = false ∧
+    SH_HEX_LOOP_lost = false ∧
+    SH_HEX_TAIL_lost = false ∧
+    SH_HEX_ENC_lost = false ∧
+    SH_JSON_STR_lost = false ∧
+    SH_TAPE_UNICODE_lost = false ∧
+    SH_CSV_WRITER_BUILD_lost = false ∧
+    SH_CSV_PARSER_lost = false ∧
+    SH_CSV_NULL_lost = false ∧
+    SH_TAPE_ESCAPES_lost = false ∧
+    SH_TAPE_STRING_lost = false ∧
+    SH_CSV_WRITER_DEFAULTS_lost = false := by
+  decide
+
 end ArrowModel.C17.Avro
